@@ -589,6 +589,62 @@ func (m *Model) DigCycle(f *MFn) bool {
 	return false
 }
 
+// onOnePath: some scope sees both homes.
+func (m *Model) onOnePath(a, b int) bool { return m.IsAnc(a, b) || m.IsAnc(b, a) }
+
+// AllCtors lists accepted constructors in registration order per scope.
+func (m *Model) AllCtors() []*MFn {
+	var out []*MFn
+	for _, sc := range m.Scopes {
+		out = append(out, sc.Ctors...)
+	}
+	return out
+}
+
+// MaxEdges: the most permissive reading — u depends on every constructor
+// that provides one of its parameter keys and that is visible together with
+// u from some scope.
+func (m *Model) MaxEdges(u *MFn, all []*MFn) []*MFn {
+	var out []*MFn
+	for _, v := range all {
+		if !m.onOnePath(u.Home, v.Home) {
+			continue
+		}
+		for _, l := range u.Leaves {
+			if providesFor(v, l) {
+				out = append(out, v)
+				break
+			}
+		}
+	}
+	return out
+}
+
+// MaxCyclic reports whether the permissive graph over `all` has a cycle.
+func (m *Model) MaxCyclic(all []*MFn) bool {
+	state := map[*MFn]int{}
+	var dfs func(u *MFn) bool
+	dfs = func(u *MFn) bool {
+		state[u] = 1
+		for _, v := range m.MaxEdges(u, all) {
+			if state[v] == 1 {
+				return true
+			}
+			if state[v] == 0 && dfs(v) {
+				return true
+			}
+		}
+		state[u] = 2
+		return false
+	}
+	for _, u := range all {
+		if state[u] == 0 && dfs(u) {
+			return true
+		}
+	}
+	return false
+}
+
 // ---------------------------------------------------------------------------
 // Availability, mayRun, mustRun
 // ---------------------------------------------------------------------------
@@ -602,6 +658,10 @@ type availCtx struct {
 func (m *Model) newAvail() *availCtx { return &availCtx{m: m, memo: map[*MFn]int{}} }
 
 func (a *availCtx) fn(f *MFn) bool {
+	if f.OkExec >= 0 {
+		// already built: its values are cached, nothing needs resolving
+		return true
+	}
 	switch a.memo[f] {
 	case 1:
 		a.cycle = true
@@ -785,10 +845,11 @@ type Zones struct {
 	OptDecoUnavail bool // optional leaf whose decorator has unavailable dependencies (C04 carve-out)
 	SoftDecorated  bool // soft group that is decorated (C11 carve-out)
 	CtorCycle      bool // run-time constructor cycle reachable
+	GraphCyclic    bool // the registered graph has a cycle under the permissive reading (cycle verdicts allowed)
 }
 
 func (z Zones) Any() bool {
-	return z.DecoNoProvider || z.DecoCycle || z.OptDecoUnavail || z.SoftDecorated || z.CtorCycle
+	return z.DecoNoProvider || z.DecoCycle || z.OptDecoUnavail || z.SoftDecorated || z.CtorCycle || z.GraphCyclic
 }
 
 // ZonesOf explores the closure of f.
@@ -796,6 +857,7 @@ func (m *Model) ZonesOf(f *MFn) Zones {
 	var z Zones
 	ci := m.FindCycles(f)
 	z.DecoCycle, z.CtorCycle = ci.DecoCycle, ci.CtorCycle
+	z.GraphCyclic = m.MaxCyclic(m.AllCtors())
 	seen := map[*MFn]bool{}
 	var visit func(g *MFn)
 	visit = func(g *MFn) {
